@@ -21,6 +21,8 @@ use vcore::{guarded, json, tok, Args, Rng, Value};
 #[derive(Clone, Debug)]
 pub enum JT {
     Int,
+    /// an integer column of another width: (bits, unsigned)
+    IntW(u8, bool),
     Float,
     Str,
     Bool,
@@ -32,6 +34,14 @@ impl JT {
     pub fn arrow(&self) -> DataType {
         match self {
             JT::Int => DataType::Int64,
+            JT::IntW(8, false) => DataType::Int8,
+            JT::IntW(16, false) => DataType::Int16,
+            JT::IntW(32, false) => DataType::Int32,
+            JT::IntW(8, true) => DataType::UInt8,
+            JT::IntW(16, true) => DataType::UInt16,
+            JT::IntW(32, true) => DataType::UInt32,
+            JT::IntW(64, true) => DataType::UInt64,
+            JT::IntW(_, _) => DataType::Int64,
             JT::Float => DataType::Float64,
             JT::Str => DataType::Utf8,
             JT::Bool => DataType::Boolean,
@@ -40,20 +50,32 @@ impl JT {
         }
     }
     pub fn tree(&self) -> Value {
+        let (w, u) = match self {
+            JT::Int => (64, 0),
+            JT::IntW(b, un) => (*b as i32, *un as i32),
+            _ => (0, 0),
+        };
         let (k, names, kids): (&str, Vec<Value>, Vec<Value>) = match self {
-            JT::Int => ("int", vec![], vec![]),
+            JT::Int | JT::IntW(_, _) => ("int", vec![], vec![]),
             JT::Float => ("float", vec![], vec![]),
             JT::Str => ("str", vec![], vec![]),
             JT::Bool => ("bool", vec![], vec![]),
             JT::List(t) => ("list", vec![], vec![t.tree()]),
             JT::Struct(fs) => ("struct", fs.iter().map(|(n, _)| cps(n)).collect(), fs.iter().map(|(_, t)| t.tree()).collect()),
         };
-        json!({"k": k, "names": names, "kids": kids})
+        json!({"k": k, "names": names, "kids": kids, "w": w, "u": u})
     }
     /// the fragment type of an Arrow type, if it lies in the fragment
     pub fn of(t: &DataType) -> Option<JT> {
         Some(match t {
             DataType::Int64 => JT::Int,
+            DataType::Int8 => JT::IntW(8, false),
+            DataType::Int16 => JT::IntW(16, false),
+            DataType::Int32 => JT::IntW(32, false),
+            DataType::UInt8 => JT::IntW(8, true),
+            DataType::UInt16 => JT::IntW(16, true),
+            DataType::UInt32 => JT::IntW(32, true),
+            DataType::UInt64 => JT::IntW(64, true),
             DataType::Float64 => JT::Float,
             DataType::Utf8 => JT::Str,
             DataType::Boolean => JT::Bool,
@@ -92,6 +114,13 @@ pub fn tree_of(a: &dyn Array, i: usize) -> Value {
     }
     match a.data_type() {
         DataType::Int64 => node("num", cps(&a.as_primitive::<Int64Type>().value(i).to_string()), vec![]),
+        DataType::Int8 => node("num", cps(&a.as_primitive::<Int8Type>().value(i).to_string()), vec![]),
+        DataType::Int16 => node("num", cps(&a.as_primitive::<Int16Type>().value(i).to_string()), vec![]),
+        DataType::Int32 => node("num", cps(&a.as_primitive::<Int32Type>().value(i).to_string()), vec![]),
+        DataType::UInt8 => node("num", cps(&a.as_primitive::<UInt8Type>().value(i).to_string()), vec![]),
+        DataType::UInt16 => node("num", cps(&a.as_primitive::<UInt16Type>().value(i).to_string()), vec![]),
+        DataType::UInt32 => node("num", cps(&a.as_primitive::<UInt32Type>().value(i).to_string()), vec![]),
+        DataType::UInt64 => node("num", cps(&a.as_primitive::<UInt64Type>().value(i).to_string()), vec![]),
         DataType::Float64 => node("flt", cps(&float_repr(a.as_primitive::<Float64Type>().value(i))), vec![]),
         DataType::Utf8 => node("str", cps(a.as_string::<i32>().value(i)), vec![]),
         DataType::Boolean => node(if a.as_boolean().value(i) { "true" } else { "false" }, cps(""), vec![]),
@@ -124,7 +153,13 @@ const KEYS: &[&str] = &["a", "b", "", "k\"q", "\u{e9}\n", "x y", "\u{1F600}"];
 fn gen_type(rng: &mut Rng, depth: usize) -> JT {
     let top = if depth == 0 { 4 } else { 6 };
     match rng.below(top) {
-        0 => JT::Int,
+        0 => {
+            if rng.chance(50) {
+                JT::Int
+            } else {
+                rng.pick(&[JT::IntW(8, false), JT::IntW(16, false), JT::IntW(32, false), JT::IntW(8, true), JT::IntW(16, true), JT::IntW(32, true), JT::IntW(64, true)]).clone()
+            }
+        }
         1 => JT::Float,
         2 => JT::Str,
         3 => JT::Bool,
@@ -152,11 +187,36 @@ fn gen_string(rng: &mut Rng) -> String {
     (0..n).map(|_| *rng.pick(&units)).collect()
 }
 
+/// a number lexeme with fraction / exponent (the value of the lexeme is what an integer column must hold)
+fn number_lexeme(rng: &mut Rng) -> String {
+    let mut s = String::new();
+    if rng.chance(40) {
+        s.push('-');
+    }
+    s.push_str(*rng.pick(&["0", "1", "2", "25", "127", "128", "300", "65535", "4294967296", "9007199254740993", "9223372036854775807", "18446744073709551615"]));
+    s.push_str(*rng.pick(&["", "", ".0", ".5", ".50", ".000", ".25", ".99999999999999999"]));
+    s.push_str(*rng.pick(&["", "", "e0", "E+2", "e-1", "e3", "E-2", "e1", "e18", "e-30", "e400"]));
+    s
+}
+
 fn gen_value(rng: &mut Rng, t: &JT, wild: bool) -> JV {
     if rng.chance(12) {
         return JV::Null;
     }
     match t {
+        JT::IntW(bits, unsigned) => {
+            let b = *bits as u32;
+            let (lo, hi): (i128, i128) = if *unsigned { (0, (1i128 << b) - 1) } else { (-(1i128 << (b - 1)), (1i128 << (b - 1)) - 1) };
+            JV::Num(match rng.below(8) {
+                0 => lo.to_string(),
+                1 => hi.to_string(),
+                2 => (hi + 1).to_string(),
+                3 => (lo - 1).to_string(),
+                4 => rng.pick(&["0", "-0", "1", "-1"]).to_string(),
+                5 => number_lexeme(rng),
+                _ => (lo + (rng.next() as i128 & i128::MAX) % (hi - lo + 1)).to_string(),
+            })
+        }
         JT::Int => JV::Num(match rng.below(8) {
             0 => "0".into(),
             1 => "-0".into(),
@@ -165,6 +225,7 @@ fn gen_value(rng: &mut Rng, t: &JT, wild: bool) -> JV {
             4 => (rng.next() as i64).to_string(),
             // not integers of the fragment (exponent / fraction / out of range): the specification decides
             5 if wild => rng.pick(&["1e2", "1.0", "9223372036854775808", "-9223372036854775809", "12.5", "1E0"]).to_string(),
+            6 => number_lexeme(rng),
             _ => rng.range(-1000, 1000).to_string(),
         }),
         JT::Float => JV::Num(match rng.below(8) {
@@ -387,6 +448,36 @@ pub fn texts(args: &Args, rng: &mut Rng, tr: &mut Shards) -> usize {
             n += 1;
         }
     }
+    // every number lexeme of a small universe into every integer width (the value of the lexeme decides)
+    let widths = [JT::IntW(8, false), JT::IntW(16, false), JT::IntW(32, false), JT::Int, JT::IntW(8, true), JT::IntW(16, true), JT::IntW(32, true), JT::IntW(64, true)];
+    let mut lexemes: Vec<(String, bool)> = vec![];
+    for sign in ["", "-"] {
+        for ip in ["0", "1", "25", "9007199254740993"] {
+            for fp in ["", ".0", ".5", ".50"] {
+                for ex in ["", "e0", "E+2", "e-1", "e3"] {
+                    lexemes.push((format!("{sign}{ip}{fp}{ex}"), false));
+                }
+            }
+        }
+    }
+    for ip in ["9223372036854775807", "-9223372036854775808", "18446744073709551615", "9223372036854775808", "-9223372036854775809", "18446744073709551616"] {
+        for fp in ["", ".0"] {
+            for ex in ["", "e0", "E+2", "e-1", "E-0"] {
+                lexemes.push((format!("{ip}{fp}{ex}"), true));
+            }
+        }
+    }
+    for (lx, wide_only) in &lexemes {
+        for ty in &widths {
+            if *wide_only && !matches!(ty, JT::Int | JT::IntW(64, true)) {
+                continue;
+            }
+            let text = format!("{lx}\n");
+            let (outcome, rows) = read_trees(text.as_bytes(), ty, false, 1024);
+            emit_text(tr, &text, ty, false, &outcome, rows, "lexeme", None, "object", false);
+            n += 1;
+        }
+    }
     for _ in 0..args.scale(1200, 50000) {
         let ty = gen_type(rng, 2);
         let ndocs = 1 + rng.below(3);
@@ -462,6 +553,94 @@ fn json_types() -> Vec<DataType> {
     v
 }
 
+/// a child array of `n` slots whose nulls are LOGICAL (no validity bitmap of its own says so): run-end encoded
+/// values with null runs, dictionaries with null values and / or null keys, the Null type
+fn logical_null_child(rng: &mut Rng, n: usize) -> ArrayRef {
+    use arrow_array::types::{Int16Type, Int32Type, Int8Type};
+    let run_ends = |rng: &mut Rng| -> Vec<usize> {
+        let mut ends = vec![];
+        let mut acc = 0;
+        while acc < n {
+            acc = (acc + 1 + rng.below(3)).min(n);
+            ends.push(acc);
+        }
+        ends
+    };
+    match rng.below(6) {
+        0 => {
+            let ends = run_ends(rng);
+            let vals: Int64Array = (0..ends.len()).map(|i| if i % 2 == 1 || rng.chance(30) { None } else { Some(rng.range(-3, 3)) }).collect();
+            let re = Int32Array::from(ends.iter().map(|x| *x as i32).collect::<Vec<_>>());
+            Arc::new(RunArray::<Int32Type>::try_new(&re, &vals).unwrap())
+        }
+        1 => {
+            let ends = run_ends(rng);
+            let vals: StringArray = (0..ends.len()).map(|i| if i % 2 == 0 && rng.chance(70) { None } else { Some(gen_string(rng)) }).collect();
+            let re = Int16Array::from(ends.iter().map(|x| *x as i16).collect::<Vec<_>>());
+            Arc::new(RunArray::<Int16Type>::try_new(&re, &vals).unwrap())
+        }
+        2 => {
+            // dictionary whose VALUES hold a null (keys all valid): no key bitmap at all
+            let values = StringArray::from(vec![Some("a"), None, Some("b\"")]);
+            let keys = Int8Array::from((0..n).map(|_| rng.below(3) as i8).collect::<Vec<_>>());
+            Arc::new(DictionaryArray::<Int8Type>::try_new(keys, Arc::new(values)).unwrap())
+        }
+        3 => {
+            // null values and null keys
+            let values = Int64Array::from(vec![Some(7), None]);
+            let keys: Int32Array = (0..n).map(|_| if rng.chance(25) { None } else { Some(rng.below(2) as i32) }).collect();
+            Arc::new(DictionaryArray::<Int32Type>::try_new(keys, Arc::new(values)).unwrap())
+        }
+        4 => {
+            let values = StringArray::from(vec!["x", "y"]);
+            let keys: Int8Array = (0..n).map(|_| if rng.chance(40) { None } else { Some(rng.below(2) as i8) }).collect();
+            Arc::new(DictionaryArray::<Int8Type>::try_new(keys, Arc::new(values)).unwrap())
+        }
+        _ => Arc::new(NullArray::new(n)),
+    }
+}
+
+/// a column of `rows` rows: a container (list, large list, fixed-size list, struct, map - or none) over such a child
+pub fn logical_null_column(rng: &mut Rng, rows: usize) -> (DataType, ArrayRef) {
+    use arrow_buffer::{NullBuffer, OffsetBuffer};
+    let nulls = |rng: &mut Rng| -> Option<NullBuffer> { if rng.chance(50) { None } else { Some(NullBuffer::from((0..rows).map(|_| !rng.chance(25)).collect::<Vec<bool>>())) } };
+    let sizes: Vec<usize> = (0..rows).map(|_| *rng.pick(&[0usize, 1, 1, 2, 3])).collect();
+    let total: usize = sizes.iter().sum();
+    let a: ArrayRef = match rng.below(6) {
+        0 => {
+            let c = logical_null_child(rng, total);
+            let f = fld("item", c.data_type().clone(), true);
+            Arc::new(ListArray::new(f, OffsetBuffer::from_lengths(sizes.clone()), c, nulls(rng)))
+        }
+        1 => {
+            let c = logical_null_child(rng, total);
+            let f = fld("item", c.data_type().clone(), true);
+            Arc::new(LargeListArray::new(f, OffsetBuffer::from_lengths(sizes.clone()), c, nulls(rng)))
+        }
+        2 => {
+            let c = logical_null_child(rng, rows * 2);
+            let f = fld("item", c.data_type().clone(), true);
+            Arc::new(FixedSizeListArray::new(f, 2, c, nulls(rng)))
+        }
+        3 => {
+            let c = logical_null_child(rng, rows);
+            let x: ArrayRef = Arc::new(Int64Array::from((0..rows).map(|i| i as i64).collect::<Vec<_>>()));
+            let fields = Fields::from(vec![Field::new("x", c.data_type().clone(), true), Field::new("y", DataType::Int64, true)]);
+            Arc::new(StructArray::new(fields, vec![c, x], nulls(rng)))
+        }
+        4 => {
+            let c = logical_null_child(rng, total);
+            let keys: ArrayRef = Arc::new(StringArray::from((0..total).map(|i| format!("k{i}")).collect::<Vec<_>>()));
+            let kv = Fields::from(vec![Field::new("key", DataType::Utf8, false), Field::new("value", c.data_type().clone(), true)]);
+            let entries = StructArray::new(kv.clone(), vec![keys, c], None);
+            let f = fld("entries", DataType::Struct(kv), false);
+            Arc::new(MapArray::new(f, OffsetBuffer::from_lengths(sizes.clone()), entries, nulls(rng), false))
+        }
+        _ => logical_null_child(rng, rows),
+    };
+    (a.data_type().clone(), a)
+}
+
 fn has_duration(t: &DataType) -> bool {
     match t {
         DataType::Duration(_) => true,
@@ -500,7 +679,12 @@ pub fn round_trips(args: &Args, rng: &mut Rng, tr: &mut Shards) -> (usize, usize
             };
             let np = *rng.pick(&[0usize, 30, 30]);
             let mut strings = |r: &mut Rng| gen_string(r);
-            let a = if rng.chance(60) { edge_array(rng, &dt, nrows, np, &mut strings) } else { mk::array(rng, &dt, nrows, Cfg::tame(np)) };
+            let (dt, a) = if !fragment && rng.chance(30) {
+                logical_null_column(rng, nrows)
+            } else {
+                let a = if rng.chance(60) { edge_array(rng, &dt, nrows, np, &mut strings) } else { mk::array(rng, &dt, nrows, Cfg::tame(np)) };
+                (dt, a)
+            };
             let name = if rng.chance(15) { rng.pick(KEYS).to_string() + &c.to_string() } else { format!("c{c}") };
             fields.push(Field::new(name, dt, true));
             cols.push(a);
